@@ -356,4 +356,3 @@ func (it *stringIter) next() tuple {
 	it.i += n
 	return okv
 }
-
